@@ -13,7 +13,7 @@ var scopeSets = [][]string{
 	{"openid", "offline_access"}, {"openid", "profile", "email", "offline_access"},
 }
 
-var issueClients = []string{"web", "web2", "native", "spa", "web", "web2", "webx", "web2x"}
+var issueClients = []string{"web", "web2", "native", "spa", "web", "web2", "webx", "web2x", "webnr", "web2nx"}
 
 func (w *World) Router(fixed opfix.Router, mixed bool) opfix.Router {
 	if mixed && w.R.Chance(1, 2) {
@@ -35,9 +35,9 @@ func (w *World) Confused(typ string, t *Tok) bool {
 	term := w.TokTerm(t)
 	switch typ {
 	case "TId":
-		return strings.HasPrefix(term, "(Jwt ") && !strings.Contains(term, " NoId ")
+		return strings.HasPrefix(term, "(PJwt ") && !strings.Contains(term, " NoId ")
 	case "TAccess":
-		return (strings.HasPrefix(term, "(Jwt ") && strings.Contains(term, ` NoId "" `)) || term == `(Opq NoId "")`
+		return (strings.HasPrefix(term, "(PJwt ") && strings.Contains(term, ` NoId "" `)) || term == `(POpq NoId "")`
 	}
 	return false
 }
